@@ -236,14 +236,23 @@ func runWorkerEnv(s *spec.Spec, logPath string, env ...string) (*spec.Result, er
 	}
 	done := make(chan error, 1)
 	go func() { done <- cmd.Wait() }()
+	kill := driverKill
+	for _, e := range env {
+		// a longer worker watchdog asked for by the caller moves the driver's kill limit with it
+		if v, ok := strings.CutPrefix(e, "VERIF_WATCHDOG_S="); ok {
+			if n, err := strconv.Atoi(v); err == nil && time.Duration(n+60)*time.Second > kill {
+				kill = time.Duration(n+60) * time.Second
+			}
+		}
+	}
 	select {
 	case err := <-done:
 		if err != nil {
 			return nil, fmt.Errorf("worker exit: %v: %s", err, tail(errb.String(), 2000))
 		}
-	case <-time.After(driverKill):
+	case <-time.After(kill):
 		cmd.Process.Kill()
-		return nil, fmt.Errorf("worker killed by driver watchdog after %v", driverKill)
+		return nil, fmt.Errorf("worker killed by driver watchdog after %v", kill)
 	}
 	var r spec.Result
 	if err := json.Unmarshal(out.Bytes(), &r); err != nil {
